@@ -19,11 +19,18 @@ use super::proc::free_port;
 impl NetWorld {
     /// Start the endpoint of `spec` on a free loopback port (the spec's listen address is replaced).
     pub async fn start(spec: &CoreSpec) -> Result<NetWorld, String> {
+        Self::start_on(spec, "127.0.0.1").await
+    }
+
+    /// Like [`start`] with the listen IP given (`[::]` for a dual-stack listener); the returned
+    /// address is the loopback one to connect to.
+    pub async fn start_on(spec: &CoreSpec, ip: &str) -> Result<NetWorld, String> {
         let mut last = String::new();
         for _ in 0..20 {
             let port = free_port().map_err(|e| e.to_string())?;
             let addr: SocketAddr = format!("127.0.0.1:{}", port).parse().unwrap();
-            let spec = CoreSpec { listen: addr, ..spec.clone() };
+            let listen: SocketAddr = format!("{}:{}", ip, port).parse().map_err(|e| format!("{}", e))?;
+            let spec = CoreSpec { listen, ..spec.clone() };
             let world = spec.build()?;
             let core = world.core.clone();
             let listen = tokio::spawn(async move { core.listen().await });
@@ -82,6 +89,11 @@ impl rustls::client::ServerCertVerifier for RecordingVerifier {
 }
 
 pub fn client_conn(sni: Option<&str>, alpn: &[Vec<u8>]) -> (rustls::ClientConnection, Arc<RecordingVerifier>) {
+    client_conn_frag(sni, alpn, None)
+}
+
+/// `fragment` = rustls max_fragment_size: a small value spreads the ClientHello over several records
+pub fn client_conn_frag(sni: Option<&str>, alpn: &[Vec<u8>], fragment: Option<usize>) -> (rustls::ClientConnection, Arc<RecordingVerifier>) {
     let verifier = Arc::new(RecordingVerifier(Mutex::new(None)));
     let mut cfg = rustls::ClientConfig::builder()
         .with_safe_defaults()
@@ -89,6 +101,7 @@ pub fn client_conn(sni: Option<&str>, alpn: &[Vec<u8>]) -> (rustls::ClientConnec
         .with_no_client_auth();
     cfg.alpn_protocols = alpn.to_vec();
     cfg.enable_sni = sni.is_some();
+    cfg.max_fragment_size = fragment;
     let name = rustls::ServerName::try_from(sni.unwrap_or("unused.invalid")).unwrap_or_else(|_| rustls::ServerName::try_from("main.x").unwrap());
     (rustls::ClientConnection::new(Arc::new(cfg), name).expect("client connection"), verifier)
 }
